@@ -3,7 +3,7 @@
 below to a repo worktree, runs the affected packages' tests and ./check for the listed
 properties, reverts.   usage: selftest/serve_mut.py REPO [name-prefix ...]
 Expected: breaking mutations -> VIOLATION; harmless rewrites (H) -> silent."""
-import sys, subprocess, os, json
+import sys, subprocess, os, json, re
 V = os.path.dirname(os.path.dirname(os.path.abspath(__file__)))
 repo = sys.argv[1]
 sel = sys.argv[2:]
@@ -64,7 +64,8 @@ for name, f, props, old, new in M:
         print(name, 'ANCHOR NOT FOUND (%d)' % s.count(old)); continue
     run_one(name, f, props, lambda: open(p,'w').write(s.replace(old, new)), lambda: subprocess.run(['git','checkout','--',f], cwd=repo))
 # independently written breaking changes (patch files)
-for d, pr in [('C14-1','C14'),('C14-2','C14'),('C14-3','C14'),('C07-1','C07'),('C07-2','C07'),('C07-3','C07'),('C08-1','C08'),('C08-2','C08'),('C08-3','C08')]:
+seeded = sorted(d for d in os.listdir('/verif/seeded') if re.match(r'C(07|08|14)-\d+$', d))
+for d, pr in [(d, d.split('-')[0]) for d in seeded]:
     name = 'seeded-' + d
     if sel and not any(name.startswith(x) for x in sel): continue
     patch = '/verif/seeded/%s/patch.diff' % d
